@@ -885,6 +885,27 @@ pub fn cmd_sweep_c09(args: &[String]) {
                 }
             }
         }
+        // a caller-supplied salt is used as given, whatever salt length the configuration names (that setting sizes the
+        // RANDOM salt of PwHash::hash): the object API equals the classic function on the same salt
+        for (sl_cfg, sl) in [(16usize, 24usize), (16, 64), (16, 8), (8, 16), (32, 17), (24, 24)] {
+            use dryoc::pwhash::{Config, PwHash};
+            let saltx = rng.bytes(sl);
+            let cfg = Config::interactive().with_opslimit(1).with_memlimit(8192).with_salt_length(sl_cfg);
+            let mut want = vec![0u8; 32];
+            cp::crypto_pwhash(&mut want, &pw, &saltx, 1, 8192, cp::PasswordHashAlgorithm::Argon2id13).unwrap();
+            rep.evaluations += 2;
+            match catch(|| PwHash::<Vec<u8>, Vec<u8>>::hash_with_salt(&pw, saltx.clone(), cfg.clone())) {
+                Ok(Ok(p)) => {
+                    let (h, s2, _c) = p.into_parts();
+                    if h != want || s2 != saltx { rep.fail("PwHash::hash_with_salt: the hash is not the classic hash of the salt that was supplied", json!({"config_salt_length": sl_cfg, "salt_len": sl})); }
+                }
+                Ok(Err(e)) => rep.fail("PwHash::hash_with_salt failed on a supplied salt", json!({"config_salt_length": sl_cfg, "salt_len": sl, "err": format!("{:?}", e)})),
+                Err(pn) => rep.fail("PwHash::hash_with_salt panicked on a supplied salt", json!({"salt_len": sl, "panic": pn})),
+            }
+            // an object assembled from a classic hash verifies
+            let obj: PwHash<Vec<u8>, Vec<u8>> = PwHash::from_parts(want.clone(), saltx.clone(), cfg);
+            if catch(|| obj.verify(&pw).is_ok()) != Ok(true) { rep.fail("PwHash::from_parts(classic hash).verify rejects the right password", json!({"config_salt_length": sl_cfg, "salt_len": sl})); }
+        }
         // salts shorter than 8 bytes are outside Argon2's domain
         let mut o = [0u8; 32];
         rep.evaluations += 1;
